@@ -170,7 +170,46 @@ def _merged_median(vals):
     return E._wrap((v[n // 2 - 1] + v[n // 2]) / 2)
 
 
+class SymMasked(_np.ma.MaskedArray):
+    "masked object array whose min/max ignore masked cells (numpy contract) and work on symbolic entries"
+
+    def _red(self, op):
+        vals = list(self.compressed())
+        if not vals:
+            return _np.ma.masked
+        return _merge_minmax(vals, op)
+
+    def min(self, axis=None, **kw):
+        return self._red("min")
+
+    def max(self, axis=None, **kw):
+        return self._red("max")
+
+
+class MinMaxArray(_np.ndarray):
+    "object ndarray whose .min()/.max() methods are merged If-terms instead of forking comparisons (numpy contract model)"
+
+    def min(self, axis=None, **kw):
+        return NP.min(_np.asarray(self).view(_np.ndarray), axis=axis)
+
+    def max(self, axis=None, **kw):
+        return NP.max(_np.asarray(self).view(_np.ndarray), axis=axis)
+
+
+class _MaProxy:
+    def __getattr__(self, name):
+        return getattr(_np.ma, name)
+
+    def masked_where(self, condition, a, copy=True):
+        arr = _np.asarray(a)
+        if arr.dtype != object:
+            return _np.ma.masked_where(condition, a, copy=copy)
+        return SymMasked(arr.copy() if copy else arr, mask=_np.asarray(condition, dtype=bool))
+
+
 class NumpyProxy:
+    ma = _MaProxy()
+
     def __init__(self):
         self.used = set()
         self.overridden = set()
@@ -196,6 +235,11 @@ class NumpyProxy:
 
     # ---- closeness
     def isclose(self, a, b, rtol=1e-05, atol=1e-08, equal_nan=False):
+        if isinstance(a, (list, tuple)) and any(x is _np.ma.masked for x in a):
+            tmp = _np.empty(len(a), dtype=object)
+            for i, x in enumerate(a):
+                tmp[i] = x
+            a = tmp
         a = _obj(a)
         b = _obj(b)
         if a.dtype != object and b.dtype != object:
@@ -204,6 +248,9 @@ class NumpyProxy:
         a, b = _np.broadcast_arrays(a.astype(object), b.astype(object))
         out = _np.empty(a.shape, dtype=object)
         for idx in _np.ndindex(*a.shape):
+            if a[idx] is _np.ma.masked or b[idx] is _np.ma.masked:
+                out[idx] = False  # numpy: a fully masked reduction is never close to a number
+                continue
             out[idx] = abs(a[idx] - b[idx]) <= atol + rtol * abs(b[idx])
         return out
 
